@@ -460,3 +460,89 @@ def run_case(c: Dict[str, Any]) -> Outcome:  # type: ignore[no-redef]
     if c.get("inmemory") and c.get("nested"):
         return run_nested_case(c)
     return run_inmemory_case(c) if c.get("inmemory") else _base_run06(c)
+
+
+# ---------------------------------------------------------------- error results as a serialising backend stores them
+#
+# "the result stored under a task id is the one produced by executing the message that carried that id" - for FAILED executions as well,
+# and in the form network backends keep: the backend serialises the result (model_dump -> JSON bytes) the moment it is saved.  Several
+# rounds of concurrently failing tasks, each raising an error with a marker of its own; between rounds the finished executions'
+# exceptions are garbage-collected (their memory gets re-used by the next round's exceptions).
+
+def serialized_error_cases() -> Any:
+    return st.fixed_dictionaries({"ser_errors": st.just(True), "rounds": st.integers(2, 5), "n": st.integers(1, 6), "gc": st.sampled_from([True, True, False]),
+                                  "exc": st.sampled_from(["ValueError", "KeyError", "MyErr"]), "dump": st.sampled_from(["json", "python"])})
+
+
+class _SerMyErr(Exception):
+    pass
+
+
+def run_serialized_errors(c: Dict[str, Any]) -> Outcome:
+    import gc
+    import json
+
+    from taskiq import InMemoryBroker
+    from taskiq.abc.result_backend import AsyncResultBackend
+    from taskiq.compat import model_dump
+
+    out = Outcome()
+    out.clauses_checked = ["C06.b"]
+    stored: Dict[str, Any] = {}
+    EXC = {"ValueError": ValueError, "KeyError": KeyError, "MyErr": _SerMyErr}[c["exc"]]
+
+    class SerBackend(AsyncResultBackend):  # type: ignore[type-arg]
+        async def set_result(self, task_id: str, result: Any) -> None:
+            d = model_dump(result)
+            stored[task_id] = json.loads(json.dumps(d, default=str)) if c["dump"] == "json" else d
+
+        async def is_result_ready(self, task_id: str) -> bool:
+            return task_id in stored
+
+        async def get_result(self, task_id: str, with_logs: bool = False) -> Any:
+            raise KeyError(task_id)
+
+    async def main() -> None:
+        b = InMemoryBroker()
+        b.result_backend = SerBackend()
+
+        async def failing(marker: str) -> None:
+            await asyncio.sleep(0)
+            raise EXC(marker)
+
+        failing.__module__ = __name__
+        b.register_task(failing, task_name="ser.failing")
+        for r_ in range(c["rounds"]):
+            await asyncio.gather(*[AsyncKicker("ser.failing", b, {}).with_task_id(f"id-r{r_}-n{k}").kiq(f"boom-r{r_}-n{k}") for k in range(c["n"])])
+            await b.wait_all()
+            if c["gc"]:
+                gc.collect()
+        await b.shutdown()
+
+    asyncio.run(main())
+    for r_ in range(c["rounds"]):
+        for k in range(c["n"]):
+            tid, marker = f"id-r{r_}-n{k}", f"boom-r{r_}-n{k}"
+            d = stored.get(tid)
+            if d is None:
+                out.add("C06.b", f"no result stored under {tid}")
+                return out
+            if marker not in json.dumps(d.get("error"), default=str):
+                out.add("C06.b", f"the (serialised) result stored under {tid} carries the error {short(d.get('error'), 160)}; the execution of that message raised {c['exc']}({marker!r}) "
+                                 f"(round {r_ + 1} of {c['rounds']}, {c['n']} concurrent failing tasks per round, gc between rounds: {c['gc']})")
+                return out
+    out.nontrivial = c["rounds"] * c["n"] >= 4
+    out.classes = ["serialized_errors", "gc_between_rounds" if c["gc"] else "no_explicit_gc"]
+    return out
+
+
+_parts_core06c, _run_core06c = parts, run_case
+
+
+def parts(tier: str) -> List[Part]:  # type: ignore[no-redef]
+    return _parts_core06c(tier) + [Part("serialized_errors", "given", shards=2, examples=2000 if tier == "thorough" else 120,
+                                        strategy=serialized_error_cases, soft_deadline_s=900 if tier == "thorough" else 100)]
+
+
+def run_case(c: Dict[str, Any]) -> Outcome:  # type: ignore[no-redef]
+    return run_serialized_errors(c) if c.get("ser_errors") else _run_core06c(c)
